@@ -101,6 +101,99 @@ def gen(rng):
     return ops
 
 
+def gen_fanout(rng):
+    """Maps and sets whose tree crosses the node-size thresholds (4/16/48 children) in both directions below a key
+    that is itself in the collection (the inner node carries a leaf): n keys P+b for distinct bytes b, plus P,
+    then deletions and re-insertions around the threshold through Map.Delete, MapTxn.Delete, Set.Delete and
+    Set.Difference; every version is re-read at the end."""
+    ops = []
+    nval = ntx = 0
+    maps, sets = [], []
+
+    def newval():
+        nonlocal nval
+        nval += 1
+        return nval
+
+    P = rng.choice([[], [], [97], [97, 98]])
+    n = rng.choice([4, 5, 6, 16, 17, 17, 18, 48, 49, 49, 50])
+    bs = rng.sample(range(33, 127), n)
+    keys = [P + [b] for b in bs]
+    for b in rng.sample(bs, min(3, n)):
+        if rng.random() < 0.5:
+            keys.append(P + [b, 99])
+    allkeys = keys + ([P] if rng.random() < 0.85 else [])
+    j0 = newval()
+    ops.append(dict(op="mnew", j=j0))
+    j = newval()
+    ops.append(dict(op="mfrom", i=j0, kvs=[[k, rng.randint(1, 9)] for k in allkeys], j=j))
+    maps.append(j)
+    if rng.random() < 0.7:
+        j = newval()
+        ops.append(dict(op="snew", vs=allkeys, j=j))
+        sets.append(j)
+    for _ in range(rng.randint(3, 10)):
+        r = rng.random()
+        k = rng.choice(keys)
+        if r < 0.35:
+            i = rng.choice(maps[-2:])
+            j = newval()
+            ops.append(dict(op="mdelete", i=i, k=k, j=j))
+            maps.append(j)
+        elif r < 0.45:
+            i = rng.choice(maps[-2:])
+            j = newval()
+            ops.append(dict(op="mset", i=i, k=rng.choice([k, P, P + [rng.randrange(33, 127)]]), v=rng.randint(1, 9), j=j))
+            maps.append(j)
+        elif r < 0.60:
+            ntx += 1
+            ops.append(dict(op="mtxn", i=rng.choice(maps[-2:]), x=ntx))
+            for kk in rng.sample(keys, rng.randint(1, 3)):
+                ops.append(dict(op="tdel", x=ntx, k=kk, v=0))
+            ops.append(dict(op=rng.choice(["tget", "tlen", "tall"]), x=ntx, k=P, v=0))
+            j = newval()
+            ops.append(dict(op="tcommit", x=ntx, k=P, v=0, j=j))
+            maps.append(j)
+        elif r < 0.75 and sets:
+            i = rng.choice(sets[-2:])
+            j = newval()
+            ops.append(dict(op="sdelete", i=i, k=k, j=j))
+            sets.append(j)
+        elif r < 0.85 and sets:
+            j = newval()
+            ops.append(dict(op="snew", vs=rng.sample(keys, rng.randint(1, 3)), j=j))
+            sets.append(j)
+            j2 = newval()
+            ops.append(dict(op="sdiff", i=sets[-2], i2=j, j=j2))
+            sets.append(j2)
+        else:
+            i = rng.choice(maps)
+            ops.append(dict(op=rng.choice(["mget", "mprefix", "mlower"]), i=i, k=rng.choice([P, k])))
+            if sets:
+                ops.append(dict(op="shas", i=rng.choice(sets), k=P))
+    if len(maps) >= 2:
+        ops.append(dict(op="meqkeys", i=maps[0], j=maps[-1]))
+        ops.append(dict(op="mslow", i=maps[-2], j=maps[-1]))
+    if rng.random() < 0.3:
+        j = newval()
+        ops.append(dict(op=rng.choice(["mjson", "myaml"]), i=maps[-1], j=j))
+        maps.append(j)
+    for i in maps:
+        ops.append(dict(op="mall", i=i, take=-1))
+        ops.append(dict(op="mlen", i=i))
+        ops.append(dict(op="mget", i=i, k=P))
+    for i in sets:
+        ops.append(dict(op="sall", i=i, take=-1))
+        ops.append(dict(op="slen", i=i, k=P))
+        ops.append(dict(op="shas", i=i, k=P))
+    return ops
+
+
 def generate(n, seed):
     rng = random.Random(seed)
     return [gen(rng) for _ in range(n)]
+
+
+def generate_fanout(n, seed):
+    rng = random.Random(seed)
+    return [gen_fanout(rng) for _ in range(n)]
